@@ -24,7 +24,7 @@ def names(rng, n, prefix, pool=None):
 
 
 class Scenario:
-    def __init__(self, n, c, k, sensors, seed=0, transcendental=False, pool=None, linear=False, branchy=False, share_reading=False, rational=False, assumptions=False, nonsmooth=False, passthrough=False, magnitude=False, wrapped=False, redundant=False):
+    def __init__(self, n, c, k, sensors, seed=0, transcendental=False, pool=None, linear=False, branchy=False, share_reading=False, rational=False, assumptions=False, nonsmooth=False, passthrough=False, magnitude=False, wrapped=False, redundant=False, tiny=False):
         self.magnitude = magnitude or wrapped
         self.wrapped = wrapped
         rng = random.Random(seed * 7919 + n * 131 + c * 17 + k * 5 + sum(sensors))
@@ -61,10 +61,17 @@ class Scenario:
                     # quadratic drag / magnitude terms written with Abs, on symbols WITHOUT assumptions (python back-end only: the
                     # C printer refuses the re()/im() sympy leaves in their complex derivative)
                     e = e + coef() * sympy.Abs(a) * a + 2 * sympy.Abs(b)
-                if wrapped and n >= 2 and s is self.state[0]:
+                if wrapped and n >= 2:
                     # a wrapped quantity (heading, phase) times another state: sympy leaves d Mod(v, 3)/dv UNEVALUATED, and Mod(v, 3)
-                    # itself is the neighbouring Jacobian entry (so CSE abstracts it out of the Derivative)
-                    e = e + sympy.Mod(self.state[1], 3) * self.state[0]
+                    # itself is the neighbouring Jacobian entry (so CSE abstracts it out of the Derivative).  The wrapped quantity is
+                    # SHARED by the first two updates, so with CSE on it is hoisted into a temporary
+                    if s is self.state[0]:
+                        e = e + sympy.Mod(self.state[1], 3) * self.state[0]
+                    elif s is self.state[1]:
+                        e = e + 2 * sympy.Mod(self.state[1], 3)
+                if tiny and len(allsyms) >= 2 and s is self.state[0]:
+                    # physically tiny constants as BARE coefficients: a constant Jacobian entry of 3e-19, and (below) noise of 4e-22 / 6e-20
+                    e = e + sympy.Float(3e-19) * (a if a is not s else b)
                 if rational:
                     # powers in denominators (printer precedence: mu/r**2 is not mu/r*r), negative and fractional powers
                     e = e + coef() * a / b**2 - coef() / a**3 + coef() * b / (a**2 + 1)
@@ -121,6 +128,13 @@ class Scenario:
                 self.state_model[st[2]] = self.state_model[st[1]]
         self.process_noise = {u: float(rng.choice([0.5, 1.25, 2.0])) + 0.25 * i for i, u in enumerate(self.control)}
         self.calibration_map = {cs: float(Fraction(rng.randint(-6, 6), 4)) for cs in self.calibration}
+        if tiny:
+            if self.control:
+                self.process_noise[self.control[0]] = 4e-22
+            for skey in self.sensor_noises:
+                r0 = sorted(self.sensor_noises[skey])[0]
+                self.sensor_noises[skey][r0] = 6e-20
+                break
 
     def ui_model(self, ui, container="set", proactive_simplify=False):
         rng = random.Random(self.rng.random())
